@@ -191,6 +191,20 @@ func init() {
 				}
 			}
 		}
+		// the JSON decoder takes a source as written: a listed source with blanks around it, in another case, or with a
+		// suffix is not a listed source (the text parser of the -includeSources option trims; this decoder does not)
+		for _, s := range listed {
+			for _, v := range []string{" " + s, s + " ", s + "\n", "\t" + s + "\t", strings.ToLower(s), s + ",", s + "s"} {
+				if contains(listed, v) || contains(declaredSources, v) {
+					continue
+				}
+				var back lint.LintSource
+				if err := json.Unmarshal([]byte(fmt.Sprintf("%q", v)), &back); err == nil {
+					jsonUnknownRejected = false
+					out.Violate("json-unknown-accepted:"+v, fmt.Sprintf("UnmarshalJSON accepts %q, which is not a listed source, and decodes it as %q", v, string(back)), v, "error", string(back))
+				}
+			}
+		}
 		out.Data["json_unknown_rejected"] = jsonUnknownRejected
 
 		// random raw lists against SourceList.FromString -> Coq cases
